@@ -608,7 +608,8 @@ fn bool_literals(st: &mut Stats) {
 // ------------------------------------------------------------------ possible values
 
 fn gen_name(rng: &mut Rng) -> String {
-    const P: &[&str] = &["fast", "Fast", "FAST", "slow", "fa", "auto", "Auto", "always", "never", "é", "É", "a-b", "x", "X", "ß", "SS", "straße", "STRASSE", "i", "İ", "1", "true"];
+    // (the empty string and a blank are names like any other)
+    const P: &[&str] = &["fast", "Fast", "FAST", "slow", "fa", "auto", "Auto", "always", "never", "é", "É", "a-b", "x", "X", "ß", "SS", "straße", "STRASSE", "i", "İ", "1", "true", "", " ", "-"];
     rng.pick(P).to_string()
 }
 
